@@ -968,9 +968,12 @@ proof fn lemma_edges_step(room: Room, s: Seq<(Edge, String)>, i: int)
 
 // ================================================================= group mutations inside a room mutation (C01)
 #[verifier::external_body]
-pub fn user_from_json(json: &String, date: i64) -> (r: Result<User>) ensures r is Ok ==> r->Ok_0.date == date { unimplemented!() }          // under contract in u3_loaders
+pub fn user_from_json(json: &String, date: i64) -> (r: Result<User>) ensures r is Ok ==> r->Ok_0.date == date && user_of_row(*json, date, r->Ok_0) { unimplemented!() }          // under contract in u3_loaders
+/// the entry a stored row (its JSON text, its date) decodes to: a fact only the decoders' contracts establish
+pub uninterp spec fn user_of_row(json: String, date: i64, u: User) -> bool;
+pub uninterp spec fn right_of_row(json: String, valid_from: i64, e: EntityRight) -> bool;
 #[verifier::external_body]
-pub fn entity_right_from_json(valid_from: i64, json: &String) -> (r: Result<EntityRight>) ensures r is Ok ==> right_normalised(r->Ok_0) && er_valid_from(r->Ok_0) == valid_from { unimplemented!() }
+pub fn entity_right_from_json(valid_from: i64, json: &String) -> (r: Result<EntityRight>) ensures r is Ok ==> right_normalised(r->Ok_0) && er_valid_from(r->Ok_0) == valid_from && right_of_row(*json, valid_from, r->Ok_0) { unimplemented!() }
 impl Authorisation {
     #[verifier::external_body]
     pub fn default() -> (r: Authorisation)
@@ -1036,6 +1039,143 @@ pub proof fn lemma_rights_appended_extend(a: Map<String, Vec<EntityRight>>, b: M
         }
     }
 }
+// ---- lower bound: every entry row a group mutation carries is an entry of the resulting group (what a restart reloads from the rows
+// is what the running instance decides on: C10).  Anchor-free: the step lemmas fire on the postconditions of the decoders and of the
+// add_* mutators and on the loop invariants, whatever the code around the calls looks like.
+pub closed spec fn in_users(m: Map<Vec<u8>, Vec<User>>, u: User) -> bool { m.contains_key(u.verifying_key) && m[u.verifying_key]@.contains(u) }
+pub closed spec fn in_rights(m: Map<String, Vec<EntityRight>>, e: EntityRight) -> bool { m.contains_key(er_entity(e)) && m[er_entity(e)]@.contains(e) }
+pub open spec fn row_json(e: InsertEntity) -> Option<String> { if e.node_to_mutate.node is Some { e.node_to_mutate.node->Some_0._json } else { None } }
+pub open spec fn row_date(e: InsertEntity) -> i64 { e.node_to_mutate.node->Some_0.mdate }
+/// (the `exists` is hidden in a spec function: nested under a `forall` in a loop invariant it is not re-established at loop exit)
+pub open spec fn user_row_present(e: InsertEntity, m: Map<Vec<u8>, Vec<User>>) -> bool {
+    row_json(e) is Some ==> exists|u: User| user_of_row(row_json(e)->Some_0, row_date(e), u) && in_users(m, u)
+}
+pub open spec fn right_row_present(e: InsertEntity, m: Map<String, Vec<EntityRight>>) -> bool {
+    row_json(e) is Some ==> exists|r: EntityRight| right_of_row(row_json(e)->Some_0, row_date(e), r) && in_rights(m, r)
+}
+pub open spec fn user_rows_present(l: Seq<InsertEntity>, n: int, m: Map<Vec<u8>, Vec<User>>) -> bool { forall|i: int| 0 <= i < n ==> #[trigger] user_row_present(l[i], m) }
+pub open spec fn right_rows_present(l: Seq<InsertEntity>, n: int, m: Map<String, Vec<EntityRight>>) -> bool { forall|i: int| 0 <= i < n ==> #[trigger] right_row_present(l[i], m) }
+/// one field of the group mutation (its name, the entities under it) is reflected in the group's three history maps
+pub open spec fn field_present(k: String, l: Seq<InsertEntity>, us: Map<Vec<u8>, Vec<User>>, ads: Map<Vec<u8>, Vec<User>>, rs: Map<String, Vec<EntityRight>>) -> bool {
+    (k@ == system_entities::AUTH_USER_FIELD@ ==> user_rows_present(l, l.len() as int, us))
+    && (k@ == system_entities::AUTH_USER_ADMIN_FIELD@ ==> user_rows_present(l, l.len() as int, ads))
+    && (k@ == system_entities::AUTH_RIGHTS_FIELD@ ==> right_rows_present(l, l.len() as int, rs))
+}
+pub open spec fn fields_present(seq: Seq<(&String, &Vec<InsertEntity>)>, n: int, us: Map<Vec<u8>, Vec<User>>, ads: Map<Vec<u8>, Vec<User>>, rs: Map<String, Vec<EntityRight>>) -> bool {
+    forall|j: int| 0 <= j < n ==> #[trigger] field_present(*seq[j].0, seq[j].1@, us, ads, rs)
+}
+broadcast proof fn lemma_users_append_in(old_m: Map<Vec<u8>, Vec<User>>, new_m: Map<Vec<u8>, Vec<User>>, user: User)
+    requires #[trigger] users_appended(old_m, new_m, user),
+    ensures in_users(new_m, user), forall|v: User| #[trigger] in_users(old_m, v) ==> in_users(new_m, v),
+{
+    let n = new_m[user.verifying_key]@;
+    let o = user_list(old_m, user.verifying_key);
+    assert(n == o.push(user));
+    assert(n[o.len() as int] == user);
+    assert forall|v: User| #[trigger] in_users(old_m, v) implies in_users(new_m, v) by {
+        if v.verifying_key == user.verifying_key {
+            let j = choose|j: int| 0 <= j < o.len() && o[j] == v; assert(n[j] == v);
+        } else { assert(old_m.contains_key(v.verifying_key)); }
+    }
+}
+broadcast proof fn lemma_rights_append_in(old_m: Map<String, Vec<EntityRight>>, new_m: Map<String, Vec<EntityRight>>, right: EntityRight)
+    requires #[trigger] rights_appended(old_m, new_m, right),
+    ensures in_rights(new_m, right), forall|v: EntityRight| #[trigger] in_rights(old_m, v) ==> in_rights(new_m, v),
+{
+    let n = new_m[er_entity(right)]@;
+    let o = right_list(old_m, er_entity(right));
+    assert(n == o.push(right));
+    assert(n[o.len() as int] == right);
+    assert forall|v: EntityRight| #[trigger] in_rights(old_m, v) implies in_rights(new_m, v) by {
+        if er_entity(v) == er_entity(right) {
+            let j = choose|j: int| 0 <= j < o.len() && o[j] == v; assert(n[j] == v);
+        } else { assert(old_m.contains_key(er_entity(v))); }
+    }
+}
+/// growth keeps what is present
+proof fn lemma_user_rows_mono(l: Seq<InsertEntity>, n: int, old_m: Map<Vec<u8>, Vec<User>>, new_m: Map<Vec<u8>, Vec<User>>, user: User)
+    requires users_appended(old_m, new_m, user), user_rows_present(l, n, old_m),
+    ensures user_rows_present(l, n, new_m),
+{
+    lemma_users_append_in(old_m, new_m, user);
+    assert forall|i: int| 0 <= i < n implies #[trigger] user_row_present(l[i], new_m) by {
+        assert(user_row_present(l[i], old_m));
+        if row_json(l[i]) is Some {
+            let u = choose|u: User| user_of_row(row_json(l[i])->Some_0, row_date(l[i]), u) && in_users(old_m, u);
+            assert(in_users(new_m, u));
+        }
+    }
+}
+proof fn lemma_right_rows_mono(l: Seq<InsertEntity>, n: int, old_m: Map<String, Vec<EntityRight>>, new_m: Map<String, Vec<EntityRight>>, right: EntityRight)
+    requires rights_appended(old_m, new_m, right), right_rows_present(l, n, old_m),
+    ensures right_rows_present(l, n, new_m),
+{
+    lemma_rights_append_in(old_m, new_m, right);
+    assert forall|i: int| 0 <= i < n implies #[trigger] right_row_present(l[i], new_m) by {
+        assert(right_row_present(l[i], old_m));
+        if row_json(l[i]) is Some {
+            let r = choose|r: EntityRight| right_of_row(row_json(l[i])->Some_0, row_date(l[i]), r) && in_rights(old_m, r);
+            assert(in_rights(new_m, r));
+        }
+    }
+}
+/// the step of an inner loop: the entity just handled carried a row, decoded to `user`, and `user` was appended
+broadcast proof fn lemma_user_rows_step(l: Seq<InsertEntity>, n: int, old_m: Map<Vec<u8>, Vec<User>>, new_m: Map<Vec<u8>, Vec<User>>, user: User)
+    requires #[trigger] users_appended(old_m, new_m, user), #[trigger] user_rows_present(l, n, old_m),
+        0 <= n < l.len(), row_json(l[n]) is Some, user_of_row(row_json(l[n])->Some_0, row_date(l[n]), user),
+    ensures user_rows_present(l, n + 1, new_m),
+{
+    lemma_user_rows_mono(l, n, old_m, new_m, user);
+    lemma_users_append_in(old_m, new_m, user);
+    assert(user_row_present(l[n], new_m));
+}
+broadcast proof fn lemma_right_rows_step(l: Seq<InsertEntity>, n: int, old_m: Map<String, Vec<EntityRight>>, new_m: Map<String, Vec<EntityRight>>, right: EntityRight)
+    requires #[trigger] rights_appended(old_m, new_m, right), #[trigger] right_rows_present(l, n, old_m),
+        0 <= n < l.len(), row_json(l[n]) is Some, right_of_row(row_json(l[n])->Some_0, row_date(l[n]), right),
+    ensures right_rows_present(l, n + 1, new_m),
+{
+    lemma_right_rows_mono(l, n, old_m, new_m, right);
+    lemma_rights_append_in(old_m, new_m, right);
+    assert(right_row_present(l[n], new_m));
+}
+/// the fields already handled stay reflected when one of the three maps grows
+broadcast proof fn lemma_fields_mono_users(seq: Seq<(&String, &Vec<InsertEntity>)>, n: int, old_m: Map<Vec<u8>, Vec<User>>, new_m: Map<Vec<u8>, Vec<User>>, user: User, ads: Map<Vec<u8>, Vec<User>>, rs: Map<String, Vec<EntityRight>>)
+    requires #[trigger] users_appended(old_m, new_m, user), #[trigger] fields_present(seq, n, old_m, ads, rs),
+    ensures fields_present(seq, n, new_m, ads, rs),
+{
+    assert forall|j: int| 0 <= j < n implies #[trigger] field_present(*seq[j].0, seq[j].1@, new_m, ads, rs) by {
+        assert(field_present(*seq[j].0, seq[j].1@, old_m, ads, rs));
+        if seq[j].0@ == system_entities::AUTH_USER_FIELD@ { lemma_user_rows_mono(seq[j].1@, seq[j].1@.len() as int, old_m, new_m, user); }
+    }
+}
+broadcast proof fn lemma_fields_mono_admins(seq: Seq<(&String, &Vec<InsertEntity>)>, n: int, us: Map<Vec<u8>, Vec<User>>, old_m: Map<Vec<u8>, Vec<User>>, new_m: Map<Vec<u8>, Vec<User>>, user: User, rs: Map<String, Vec<EntityRight>>)
+    requires #[trigger] users_appended(old_m, new_m, user), #[trigger] fields_present(seq, n, us, old_m, rs),
+    ensures fields_present(seq, n, us, new_m, rs),
+{
+    assert forall|j: int| 0 <= j < n implies #[trigger] field_present(*seq[j].0, seq[j].1@, us, new_m, rs) by {
+        assert(field_present(*seq[j].0, seq[j].1@, us, old_m, rs));
+        if seq[j].0@ == system_entities::AUTH_USER_ADMIN_FIELD@ { lemma_user_rows_mono(seq[j].1@, seq[j].1@.len() as int, old_m, new_m, user); }
+    }
+}
+broadcast proof fn lemma_fields_mono_rights(seq: Seq<(&String, &Vec<InsertEntity>)>, n: int, us: Map<Vec<u8>, Vec<User>>, ads: Map<Vec<u8>, Vec<User>>, old_m: Map<String, Vec<EntityRight>>, new_m: Map<String, Vec<EntityRight>>, right: EntityRight)
+    requires #[trigger] rights_appended(old_m, new_m, right), #[trigger] fields_present(seq, n, us, ads, old_m),
+    ensures fields_present(seq, n, us, ads, new_m),
+{
+    assert forall|j: int| 0 <= j < n implies #[trigger] field_present(*seq[j].0, seq[j].1@, us, ads, new_m) by {
+        assert(field_present(*seq[j].0, seq[j].1@, us, ads, old_m));
+        if seq[j].0@ == system_entities::AUTH_RIGHTS_FIELD@ { lemma_right_rows_mono(seq[j].1@, seq[j].1@.len() as int, old_m, new_m, right); }
+    }
+}
+/// append-only growth, anchor-free
+broadcast proof fn lemma_users_appended_extend_b(a: Map<Vec<u8>, Vec<User>>, b: Map<Vec<u8>, Vec<User>>, c: Map<Vec<u8>, Vec<User>>, u: User)
+    requires #[trigger] users_extend(a, b), #[trigger] users_appended(b, c, u),
+    ensures users_extend(a, c),
+{ lemma_users_appended_extend(a, b, c, u); }
+broadcast proof fn lemma_rights_appended_extend_b(a: Map<String, Vec<EntityRight>>, b: Map<String, Vec<EntityRight>>, c: Map<String, Vec<EntityRight>>, r: EntityRight)
+    requires #[trigger] rights_extend(a, b), #[trigger] rights_appended(b, c, r),
+    ensures rights_extend(a, c),
+{ lemma_rights_appended_extend(a, b, c, r); }
+
 pub open spec fn sub_keys_ok(m: Map<String, Vec<InsertEntity>>) -> bool {
     forall|k: String| #[trigger] m.contains_key(k) ==> k@ == system_entities::AUTH_RIGHTS_FIELD@ || k@ == system_entities::AUTH_USER_FIELD@ || k@ == system_entities::AUTH_USER_ADMIN_FIELD@
 }
@@ -1063,6 +1203,9 @@ pub open spec fn auth_loop_inv(g0: Authorisation, g: Authorisation, need_room_ad
 //@ rewrite E16 "\"sys\.[A-Za-z]+\"\.to_string\(\)" => "fmt_stub()" x*
 //@ rewrite E16 "ROOM_ENT\.to_string\(\)" => "fmt_stub()" x*
 //@ rewrite E3 "\.\.Default::default\(\)" => "..Authorisation::default()" x1
+//@ insert body-start
+        // no anchor at the add_* calls: growth and presence follow every call from the callee's postcondition, whatever the code around it looks like
+        broadcast use {lemma_users_appended_extend_b, lemma_rights_appended_extend_b, lemma_user_rows_step, lemma_right_rows_step, lemma_fields_mono_users, lemma_fields_mono_admins, lemma_fields_mono_rights};
 //@ insert before-stmt "let mut need_user_admin = false;"
         let ghost g0 = *authorisation;
         assert(group_before(*old(room), old(insert_entity).node_to_mutate.id, g0));
@@ -1071,24 +1214,23 @@ pub open spec fn auth_loop_inv(g0: Authorisation, g: Authorisation, need_room_ad
                 insert_entity.node_to_mutate == old(insert_entity).node_to_mutate,
                 // [group_only_grows] whatever the mutation contains, every history list of the group only grows (append-only), and rights / user admins (users) are untouched unless the room-admin (user-admin) right will be demanded
                 auth_loop_inv(g0, *authorisation, need_room_admin, need_user_admin),
+                // [fields_handled_so_far_are_in_the_group]{C10,C01} every entry row under the fields handled so far is an entry of the group being built
+                fields_present(ite.seq(), ite.index@ as int, authorisation.users@, authorisation.user_admins@, authorisation.rights@),
 //@ loop "for insert_entity in entry.1" #1 iter iti
                         invariant auth_loop_inv(g0, *authorisation, need_room_admin, need_user_admin), need_room_admin,
+                            fields_present(ite.seq(), ite.index@ as int, authorisation.users@, authorisation.user_admins@, authorisation.rights@),
+                            // [right_rows_handled_so_far_are_in_the_group]{C10,C01}
+                            right_rows_present(entry.1@, iti.index@ as int, authorisation.rights@),
 //@ loop "for insert_entity in entry.1" #2 iter iti
                         invariant auth_loop_inv(g0, *authorisation, need_room_admin, need_user_admin), need_user_admin,
+                            fields_present(ite.seq(), ite.index@ as int, authorisation.users@, authorisation.user_admins@, authorisation.rights@),
+                            // [user_rows_handled_so_far_are_in_the_group]{C10,C01}
+                            user_rows_present(entry.1@, iti.index@ as int, authorisation.users@),
 //@ loop "for insert_entity in entry.1" #3 iter iti
                         invariant auth_loop_inv(g0, *authorisation, need_room_admin, need_user_admin), need_room_admin,
-//@ insert before-stmt "authorisation.add_right(right)"
-                                let ghost gb = *authorisation; let ghost rc = right;
-//@ insert after-stmt "authorisation.add_right(right)"
-                                proof { lemma_rights_appended_extend(g0.rights@, gb.rights@, authorisation.rights@, rc); }
-//@ insert before-stmt "authorisation.add_user(user)"
-                                let ghost gb = *authorisation; let ghost uc = user;
-//@ insert after-stmt "authorisation.add_user(user)"
-                                proof { lemma_users_appended_extend(g0.users@, gb.users@, authorisation.users@, uc); }
-//@ insert before-stmt "authorisation.add_user_admin(user)"
-                                let ghost gb = *authorisation; let ghost uc = user;
-//@ insert after-stmt "authorisation.add_user_admin(user)"
-                                proof { lemma_users_appended_extend(g0.user_admins@, gb.user_admins@, authorisation.user_admins@, uc); }
+                            fields_present(ite.seq(), ite.index@ as int, authorisation.users@, authorisation.user_admins@, authorisation.rights@),
+                            // [user_admin_rows_handled_so_far_are_in_the_group]{C10,C01}
+                            user_rows_present(entry.1@, iti.index@ as int, authorisation.user_admins@),
 //@ spec
         requires sub_keys_ok(old(insert_entity).sub_nodes@),      // the mutation parser only produces the three list fields of sys.Authorisation
         ensures
@@ -1101,6 +1243,10 @@ pub open spec fn auth_loop_inv(g0: Authorisation, g: Authorisation, need_room_ad
                         && (r->Ok_0 == false ==> group_change_without_admin_ok(g0, final(room).authorisations@[old(insert_entity).node_to_mutate.id], *verifying_key, old(insert_entity).node_to_mutate.date)))
                 && (forall|id: Uid| id != old(insert_entity).node_to_mutate.id ==> (#[trigger] final(room).authorisations@.contains_key(id) == old(room).authorisations@.contains_key(id))
                         && (old(room).authorisations@.contains_key(id) ==> final(room).authorisations@[id] == old(room).authorisations@[id])),
+            // [every_entry_row_of_a_group_mutation_is_in_the_resulting_group]{C10,C01} lower bound: every user, user-admin and right row the accepted mutation carries was decoded and its entry is in the history of the resulting group - what the running instance decides on is what a restart reloads from the rows
+            r is Ok ==> forall|k: String| #![trigger old(insert_entity).sub_nodes@[k]] old(insert_entity).sub_nodes@.contains_key(k) ==>
+                field_present(k, old(insert_entity).sub_nodes@[k]@, final(room).authorisations@[old(insert_entity).node_to_mutate.id].users@,
+                    final(room).authorisations@[old(insert_entity).node_to_mutate.id].user_admins@, final(room).authorisations@[old(insert_entity).node_to_mutate.id].rights@),
             // [group_rows_carry_no_room_id]{C01}
             r is Ok ==> old(insert_entity).node_to_mutate.room_id is None && old(insert_entity).edge_deletions@.len() == 0,
             // [group_of_another_room_never_adopted]{C01} a group this room does not hold is accepted only as a NEW group (a row that did not exist before): an existing group row - a group of another room - is never changed through this room
